@@ -27,7 +27,7 @@ type MetricManager struct {
 
 	metricManagerActive bool
 
-	mu sync.Mutex
+	mu sync.RWMutex
 }
 
 func NewMetricManager() (*MetricManager, error) {
@@ -115,9 +115,16 @@ func (m *MetricManager) ReloadMetricsConfig() error {
 	return nil
 }
 
+// isActive reads the flag that a concurrent ReloadMetricsConfig writes under the same lock
+func (m *MetricManager) isActive() bool {
+	m.mu.RLock()
+	defer m.mu.RUnlock()
+	return m.metricManagerActive
+}
+
 // UpdateMetricsForAPICall updates the general metrics - relevant for the API calls
 func (m *MetricManager) UpdateMetricsForAPICall(provider APICallMetricsProviderI) {
-	if !m.metricManagerActive {
+	if !m.isActive() {
 		return
 	}
 
@@ -128,7 +135,7 @@ func (m *MetricManager) UpdateMetricsForAPICall(provider APICallMetricsProviderI
 
 // UpdateMetricsForFlow updates the system metrics - relevant for the flows
 func (m *MetricManager) UpdateMetricsForFlow(provider FlowMetricsProviderI) {
-	if !m.metricManagerActive {
+	if !m.isActive() {
 		return
 	}
 
